@@ -54,6 +54,17 @@ func groups() []Group {
 				{File: "pkg/client/rp/verifier.go", Name: "VerifyIDToken", Lean: "VerifyIDToken",
 					Params: []string{"(token : Token)", "(v : Verifier)"}, Ret: RetValErr, RetType: "Claims", NilValue: []string{"nilClaims"},
 					Rename: map[string]string{"v.Nonce()": "(Go.getOpt (v).Nonce)"}},
+				{File: "pkg/op/verifier_access_token.go", Name: "VerifyAccessToken", Lean: "OPVerifyAccessToken",
+					Params: []string{"(token : Token)", "(v : Verifier)"}, Ret: RetValErr, RetType: "Claims", NilValue: []string{"nilClaims"}},
+				{File: "pkg/op/verifier_id_token_hint.go", Name: "VerifyIDTokenHint", Lean: "VerifyIDTokenHint",
+					Params: []string{"(token : Token)", "(v : Verifier)"}, Ret: RetValErr, RetType: "HintOut", NilValue: []string{"nilClaims"},
+					WrapOk: "HintOut.valid", WrapBoth: "HintOut.expired"},
+				{File: "pkg/op/verifier_jwt_profile.go", Name: "SubjectIsIssuer", Lean: "SubjectIsIssuer",
+					Params: []string{"(request : Claims)"}, Ret: RetErr},
+				{File: "pkg/op/verifier_jwt_profile.go", Name: "VerifyJWTAssertion", Lean: "VerifyJWTAssertion",
+					Params: []string{"(assertion : Token)", "(v : JWTProfileVerifier)"}, Ret: RetValErr, RetType: "Claims",
+					Rename: map[string]string{"v.CheckSubject()": "Hand.applySubjectCheck (SubjectIsIssuer now) (v).CheckSubject",
+						"jwtProfileKeySet{}": "Hand.jwtProfileKeySet"}},
 				{File: "pkg/client/rp/verifier.go", Name: "VerifyTokens", Lean: "VerifyTokens",
 					Params: []string{"(accessToken : String)", "(idToken : Token)", "(v : Verifier)"}, Ret: RetValErr, RetType: "Claims", NilValue: []string{"nilClaims"},
 					Rename: map[string]string{"VerifyAccessToken()": "RPVerifyAccessToken now"}},
